@@ -199,13 +199,23 @@ static void c20nv_random(Buf *b) {
  * The client (t12_client.h) sends its commands through c20_t12c_run: session set-up commands (OIAP, OSAP, Terminate_Handle,
  * CreateEndorsementKeyPair ...) are traced as `op name=other`; the NV command itself is traced by the caller as an `nv` line
  * with tag=auth1ok / auth1bad (= the client built a correct / a deliberately wrong HMAC) and hmac=<response HMAC verified>. */
+/* the authorization bytes of the last authorized request / answer, appended to the trace line that is being written */
+static void c20_trace_auth(void) {
+    T12cAuthLog *g = &g12c_log;
+    if (!g->have_req) return;
+    if (g->osap) { trhex("aes", g->es, 20); trhex("aneo", g->neo, 20); trhex("anoo", g->noo, 20); } else trhex("ak", g->key, 20);
+    trhex("ane", g->ne, 20); trhex("ano", g->no, 20); fprintf(g_tr, " ac=%u corrupt=%d", g->cont, g->corrupt); trhex("apd", g->pd, g->pdlen); trhex("amac", g->mac, 20);
+    if (g->have_rsp) { trhex("rne", g->rne, 20); fprintf(g_tr, " rcont=%u", g->rcont); trhex("rpd", g->rpd, g->rpdlen); trhex("rmac", g->rmac, 20); }
+    g->have_req = g->have_rsp = 0;
+}
+
 static Rsp c20nv_main; static long c20nv_main_stores; static int c20nv_have_main; static int c20nv_badauth;
 static Rsp c20_t12c_run(Buf *b, const char *label) {
     Rsp r = c20_run(b, label);
     if (r.rc == 0xFFFFFFFF && !r.len) return r;
     uint32_t ord = b->n >= 10 ? g32(b->p + 6) : 0;
     if (ord == T12_ORD_NV_DefineSpace || ord == T12_ORD_NV_WriteValue || ord == T12_ORD_NV_ReadValue || ord == 0xCE || ord == 0xD0 || ord == 0x0D ||
-        ord == 0xDC || ord == 0xDD || ord == 0xDF || ord == 0xE0) {
+        ord == 0xDC || ord == 0xDD || ord == 0xDF || ord == 0xE0 || ord == 0x78 || ord == 0x5B || ord == 0x5C || ord == 0x6E) {
         c20nv_main = r; c20nv_main_stores = g_store_perm_in_cmd; c20nv_have_main = 1; return r;     /* traced by the caller */
     }
     tr("op name=other loc=%d ret=%u rc=%u ord=%u stores=%ld", g_locality, r.ret, r.rc, ord, g_store_perm_in_cmd);
@@ -215,7 +225,8 @@ static void c20nv_area_auth(uint8_t a[20], uint32_t idx) {
     int sl = c20nv_pool_slot(idx);
     for (int i = 0; i < 20; i++) a[i] = (sl >= 0 && c20nv_note[sl].zero_auth) ? 0 : (uint8_t)(0xA0 + (idx & 0xf) + i);
 }
-static int c20nv_corrupt(void) { if (c20nv_badauth >= 3 || !chance(12)) return 0; c20nv_badauth++; return 1 + rnd(3); }
+static int c20nv_corrupt_max(int maxmode) { if (c20nv_badauth >= 3 || !chance(12)) return 0; c20nv_badauth++; return 1 + (int)rnd((uint32_t)maxmode); }
+static int c20nv_corrupt(void) { return c20nv_corrupt_max(5); }
 /* the `nv` line of a command sent by the client; `d`/`n`: data written or read back */
 static void c20nv_trace_client(const char *name, int corrupt, int verified, const char *fmt, ...) {
     if (!c20nv_have_main) return;                                                   /* the session could not be opened: nothing was sent */
@@ -229,38 +240,42 @@ static void c20nv_install_owner(Buf *b) {
     t12c_run = c20_t12c_run;
     memset(&g12c, 0, sizeof g12c);
     c20nv_tscpp(b, 0x20); c20nv_tscpp(b, 0x08);
-    if (t12c_create_ek(b) != 0) return;
-    c20nv_have_main = 0;
+    c20nv_have_main = 0; g12c_log.have_req = 0;
+    uint32_t ekrc = t12c_create_ek(b);
+    if (c20nv_have_main) tr("op name=other loc=%d ret=%u rc=%u ord=%u stores=%ld", g_locality, c20nv_main.ret, c20nv_main.rc, 0x78, c20nv_main_stores);
+    if (ekrc != 0) return;
+    c20nv_have_main = 0; g12c_log.have_req = 0;
     uint32_t rc = t12c_take_ownership(b, own, srk);
     if (!c20nv_have_main) return;
-    tr("nv name=takeownership tag=auth1ok loc=%d hw=%d ret=%u rc=%u stores=%ld hmac=%d out=-", g_locality, g_pp, c20nv_main.ret, c20nv_main.rc, c20nv_main_stores, rc == 0);
-    c20nv_have_main = 0;
+    tr_begin("nv name=takeownership tag=auth1ok loc=%d hw=%d ret=%u rc=%u stores=%ld hmac=%d out=-", g_locality, g_pp, c20nv_main.ret, c20nv_main.rc, c20nv_main_stores, rc == 0);
+    c20_trace_auth(); tr_end();
+    c20nv_have_main = 0; g12c_log.have_req = 0;
     if (rc == 0) c20nv_owner = 1;
 }
 static void c20nv_define_owner(Buf *b, uint32_t idx, uint32_t attrs, uint32_t size) {
     uint8_t auth[20]; for (int i = 0; i < 20; i++) auth[i] = (uint8_t)(0xA0 + (idx & 0xf) + i);
     int corrupt = c20nv_corrupt(), ver = -1;
-    c20nv_have_main = 0;
+    c20nv_have_main = 0; g12c_log.have_req = 0;
     uint32_t rc = t12c_nv_define_owner(b, idx, attrs, size, auth, corrupt, &ver);
     if (!c20nv_have_main) return;
-    c20nv_trace_client("define", corrupt, ver, "idx=%u attrs=%u size=%u lr=31 lw=31 out=-", idx, attrs, size); tr_end();
+    c20nv_trace_client("define", corrupt, ver, "idx=%u attrs=%u size=%u lr=31 lw=31 out=-", idx, attrs, size); c20_trace_auth(); tr_end();
     int sl = c20nv_pool_slot(idx);
     if (rc == 0 && sl >= 0) { c20nv_note[sl].size = size; c20nv_note[sl].attrs = attrs; c20nv_note[sl].zero_auth = 0; }
 }
 static void c20nv_write_client(Buf *b, int area_auth, uint32_t idx, uint32_t off, const uint8_t *d, uint32_t n) {
-    uint8_t auth[20]; c20nv_area_auth(auth, idx); int corrupt = c20nv_corrupt(), ver = -1;
-    c20nv_have_main = 0;
+    uint8_t auth[20]; c20nv_area_auth(auth, idx); int corrupt = n ? c20nv_corrupt() : c20nv_corrupt_max(4), ver = -1;   /* 5 alters the last data byte */
+    c20nv_have_main = 0; g12c_log.have_req = 0;
     if (area_auth) t12c_nv_write_auth(b, NULL, auth, idx, off, d, n, corrupt, &ver); else t12c_nv_write_owner(b, NULL, idx, off, d, n, corrupt, &ver);
     if (!c20nv_have_main) return;
-    c20nv_trace_client(area_auth ? "writeauth" : "write", corrupt, ver, "idx=%u off=%u out=-", idx, off); trhex("d", d, n); tr_end();
+    c20nv_trace_client(area_auth ? "writeauth" : "write", corrupt, ver, "idx=%u off=%u out=-", idx, off); trhex("d", d, n); c20_trace_auth(); tr_end();
 }
 static void c20nv_read_client(Buf *b, int area_auth, uint32_t idx, uint32_t off, uint32_t n) {
-    uint8_t auth[20]; c20nv_area_auth(auth, idx); int corrupt = c20nv_corrupt(), ver = -1; const uint8_t *data = NULL; uint32_t dlen = 0;
-    c20nv_have_main = 0;
+    uint8_t auth[20]; c20nv_area_auth(auth, idx); int corrupt = c20nv_corrupt_max(4), ver = -1; const uint8_t *data = NULL; uint32_t dlen = 0;
+    c20nv_have_main = 0; g12c_log.have_req = 0;
     if (area_auth) t12c_nv_read_auth(b, NULL, auth, idx, off, n, &data, &dlen, corrupt, &ver); else t12c_nv_read_owner(b, NULL, idx, off, n, &data, &dlen, corrupt, &ver);
     if (!c20nv_have_main) return;
     c20nv_trace_client(area_auth ? "readauth" : "read", corrupt, ver, "idx=%u off=%u n=%u", idx, off, n);
-    const uint8_t *p; uint32_t k; c20nv_out(&c20nv_main, &p, &k); trhex("out", p, k); tr_end();
+    const uint8_t *p; uint32_t k; c20nv_out(&c20nv_main, &p, &k); trhex("out", p, k); c20_trace_auth(); tr_end();
 }
 /* one random owner- or area-authorized NV operation */
 static void c20nv_random_owner(Buf *b) {
@@ -299,12 +314,13 @@ static void c20ctr_trace(const char *name, uint32_t id, int corrupt, int ver, ui
     if (!c20nv_have_main) return;
     c20nv_have_main = 0;
     const Rsp *r = &c20nv_main;
-    tr("ctr name=%s loc=%d ret=%u rc=%u id=%u ok=%d value=%u stores=%ld hmac=%d", name, g_locality, r->ret, r->rc, id, corrupt ? 0 : 1, value, c20nv_main_stores, ver);
+    tr_begin("ctr name=%s loc=%d ret=%u rc=%u id=%u ok=%d value=%u stores=%ld hmac=%d", name, g_locality, r->ret, r->rc, id, corrupt ? 0 : 1, value, c20nv_main_stores, ver);
+    c20_trace_auth(); tr_end();
 }
 static void c20ctr_random(Buf *b) {
     uint32_t id = chance(85) ? rnd(5) : (uint32_t[]){7, 8, 9, 100, 0xFFFFFFFFu, 0xFFFFFFFEu}[rnd(6)], v = 0;
-    int corrupt = c20nv_corrupt(), ver = -1;
-    c20nv_have_main = 0;
+    int corrupt = c20nv_corrupt_max(4), ver = -1;
+    c20nv_have_main = 0; g12c_log.have_req = 0;
     switch (rnd(12)) {
     case 0: case 1: case 2: { uint32_t nid = 0; t12c_counter_create(b, c20ctr_auth, (const uint8_t *)"c20c", &nid, &v, corrupt, &ver); c20ctr_trace("create", nid, corrupt, ver, v); break; }
     case 3: case 4: case 5: case 6: t12c_counter_increment(b, NULL, id, c20ctr_auth, &v, corrupt, &ver); c20ctr_trace("increment", id, corrupt, ver, v); break;
